@@ -72,4 +72,11 @@ CHECKS = {
           "boxes, agreement with intersects; plus ulp-perturbed classification from Gen_Kernel."),
     note="Trusted: TLC; rational crossing evaluated in f64 by the harness (one division). 4x4 lattice exhaustively, larger magnitudes via exact maps.",
     technique="TLA+ exact segment relation enumerated by TLC; spec->impl replay", design_ref="DESIGN.md 5 C11"),
+ "C08": dict(
+    text=("Gen_Hull.tla defines the hull declaratively (extreme points by Caratheodory walked ccw); TLC checks on every subset of the "
+          "lattice that the ring is strictly convex, made of input points and contains them all, and computes the exact minimum "
+          "rotated-rectangle area; each subset is replayed in 5 orders (incl. duplicates) into quick_hull / graham_hull / convex_hull "
+          "for f64 (exact maps) and i64, and into minimum_rotated_rect."),
+    note="Trusted: TLC. All subsets of <= 5 (7 thorough) points of the 4x4 lattice and <= 4 (5) of the 5x5 lattice; larger magnitudes via exact maps.",
+    technique="TLA+ declarative hull + exact min-rectangle enumerated by TLC; spec->impl replay", design_ref="DESIGN.md 5 C08"),
 }
